@@ -217,7 +217,19 @@ class TaskRunner:
         target_list = [
             project.get_target(target_name) for target_name in target_list
         ]
-        target_list.sort()
+
+        # Order them such that each target comes after its dependencies.
+        # Note: 'depends on' is a partial order only, so list.sort()
+        # cannot be used. Repeatedly pick a target that depends on none
+        # of the remaining targets (exists, since there are no loops):
+        remaining = target_list
+        target_list = []
+        while remaining:
+            target = next(
+                t for t in remaining if not any(t > o for o in remaining)
+            )
+            remaining.remove(target)
+            target_list.append(target)
 
         self.logger.info(f"Target sequence: {target_list}")
 
